@@ -210,7 +210,7 @@ pub fn frag_case(d: &[u8]) -> FragCase {
         ops.push(match s.u8() % 10 {
             0..=5 => FGene::Write {
                 ddts: [3000u32, 0, 1, 1500, 90000][(s.u8() % 5) as usize] + s.u8() as u32,
-                cts: s.u16() as i32 - 20000,
+                cts: s.u16() as i64 - 20000,
                 size: s.u8() as u32,
                 sync: s.bool(),
                 back: if s.u8() % 6 == 0 { Some(s.u16() as u32) } else { None },
